@@ -274,4 +274,49 @@ def wstep (keepsTimedOut : Bool) (s : WSt) : WTok → WSt
 
 def wrun (keepsTimedOut : Bool) (toks : List WTok) : WSt := toks.foldl (wstep keepsTimedOut) {}
 
+/-! ### multi-shard list (`List` / `listFromShard`): one goroutine per shard sends what its stream delivers
+    into one channel -/
+
+/-- what the stream of one shard delivers: batches of keys, then possibly a failure -/
+inductive LRes
+  | keys (ks : List String)
+  | err
+  deriving Repr, DecidableEq
+
+/-- the results `listFromShard` sends for one shard: `none` = the request itself fails; `some items` = the
+    responses of the stream, `none` among them = the stream breaks (nothing after it is delivered) -/
+def streamResults : List (Option (List String)) → List LRes
+  | [] => []
+  | none :: _ => [.err]
+  | some ks :: rest => .keys ks :: streamResults rest
+
+def shardResults : Option (List (Option (List String))) → List LRes
+  | none => [.err]
+  | some items => streamResults items
+
+/-- the goroutines run in any order: `sched` says which shard sends its next result; a shard that has nothing
+    left is skipped -/
+def pull {α : Type} : List (List α) → Nat → Option (α × List (List α))
+  | [], _ => none
+  | [] :: _, 0 => none
+  | (a :: t) :: ls, 0 => some (a, t :: ls)
+  | l :: ls, i + 1 => (pull ls i).map fun p => (p.1, l :: p.2)
+
+def runSched {α : Type} (ls : List (List α)) : List Nat → List α × List (List α)
+  | [] => ([], ls)
+  | i :: rest =>
+    match pull ls i with
+    | none => runSched ls rest
+    | some (a, ls') => let r := runSched ls' rest; (a :: r.1, r.2)
+
+/-- what the caller of `List` has received when the channel is closed: the keys (sorted here: their order
+    across shards is a matter of timing) and the number of errors -/
+def insertSorted (a : String) : List String → List String
+  | [] => [a]
+  | b :: t => if a ≤ b then a :: b :: t else b :: insertSorted a t
+
+def listSummary (rs : List LRes) : List String × Nat :=
+  ((rs.flatMap fun r => match r with | .keys ks => ks | .err => []).foldr insertSorted [],
+   (rs.filter fun r => r == .err).length)
+
 end Oxia.Batch
